@@ -30,6 +30,7 @@ from vlib import cli, gen_prog
 from ref import rzxref, snapdec
 
 PROPERTY = 'C20'
+CASE_CPU_LIMIT_S = 180       # a recording is a few frames: seconds of CPU at most
 RULE = ('Hypothesis draws a machine (48K/128K/+2), a main program closed by a jump back - either a mix of up to 20 (36 thorough) '
         'RZX-specific snippets (IN forms, HALT, EI/DI, IM 0/1/2 with a vector table, LD A,I/R, LD R,A, prefix chains, paging/AY/border '
         'OUTs, counted loops dense in those, delay loops, LDIR) or a short dense loop of the instructions the frame-end rules look '
